@@ -37,45 +37,47 @@ theorem known_size_later_is_larger (len : Nat) (as bs : List Atom) (c : Nat)
   omega
 
 /-- **Wrapper**: the positions a thread receives are strictly increasing from pull to pull -/
-theorem iter_per_thread_increasing (s : IW.Script) (hf : IW.Fused s) (ps : Nat → List IW.Req)
+theorem iter_per_thread_increasing (s : IW.Script) (ps : Nat → List IW.Req)
     (hok : ∀ t, ∀ r ∈ ps t, IW.ReqOk r) (σ : List Nat) (hW : (IW.run s σ (IW.init ps)).R < W) (t : Nat) :
     ((IW.run s σ (IW.init ps)).th t).outs.Pairwise fun a b => ∀ p ∈ a.pos, ∀ q ∈ b.pos, p < q :=
-  (IW.oinv_run hf σ (IW.inv_init s ps hok) (IW.oinv_init s ps) hW).sorted t
+  (IW.oinv_run σ (IW.inv_init s ps hok) (IW.oinv_init s ps) hW).sorted t
 
 /-- **Wrapper, real-time order**: everything handed out so far lies below the yielded counter, and every
 ticket that is reserved from now on starts at or above the reserved counter, which is at least the yielded
 counter: a pull that starts after another one returned gets larger positions. -/
-theorem iter_realtime_order (s : IW.Script) (hf : IW.Fused s) (ps : Nat → List IW.Req)
+theorem iter_realtime_order (s : IW.Script) (ps : Nat → List IW.Req)
     (hok : ∀ t, ∀ r ∈ ps t, IW.ReqOk r) (σ : List Nat) (hW : (IW.run s σ (IW.init ps)).R < W)
     (t : Nat) (o : IW.POut) (ho : o ∈ ((IW.run s σ (IW.init ps)).th t).outs) (p : Nat) (hp : p ∈ o.pos) :
     let c := IW.run s σ (IW.init ps)
     p < c.Y ∧ c.Y ≤ c.R ∧
       ∀ u r, (c.th u).pc = .resv r → ((IW.step s u c).th u).pc.ticket = some (c.R, r.len) := by
   intro c
-  have hi := IW.inv_reach s hf ps hok σ hW
-  refine ⟨(IW.oinv_run hf σ (IW.inv_init s ps hok) (IW.oinv_init s ps) hW).belowY t o ho p hp, hi.yr, ?_⟩
+  have hi := IW.inv_reach s ps hok σ hW
+  refine ⟨(IW.oinv_run σ (IW.inv_init s ps hok) (IW.oinv_init s ps) hW).belowY t o ho p hp, hi.yr, ?_⟩
   intro u r hpc
   unfold IW.step
   simp [hpc, IW.setTh, IW.Pc.ticket]
 
 /-- a ticket is always served at its own begin index: the thread in the critical section holds exactly the
 ticket `yielded` points at (tickets are served in reservation order) -/
-theorem iter_served_in_ticket_order (s : IW.Script) (hf : IW.Fused s) (ps : Nat → List IW.Req)
+theorem iter_served_in_ticket_order (s : IW.Script) (ps : Nat → List IW.Req)
     (hok : ∀ t, ∀ r ∈ ps t, IW.ReqOk r) (σ : List Nat) (hW : (IW.run s σ (IW.init ps)).R < W)
     (t b n : Nat) (hcs : ((IW.run s σ (IW.init ps)).th t).pc.inCS = true)
     (htk : ((IW.run s σ (IW.init ps)).th t).pc.ticket = some (b, n)) : b = (IW.run s σ (IW.init ps)).Y :=
-  (IW.inv_reach s hf ps hok σ hW).csY t b n hcs htk
+  (IW.inv_reach s ps hok σ hW).csY t b n hcs htk
 
-/-- **Wrapper, gap-free prefix**: in every reachable configuration, every filled position below the yielded
-counter has been handed out, and everything handed out lies below it: whenever no pull is in flight the
-delivered positions are exactly the filled prefix `{p < yielded | s p is an element}`. -/
-theorem iter_quiescent_prefix (s : IW.Script) (hf : IW.Fused s) (hnp : IW.NoPanic s) (ps : Nat → List IW.Req)
-    (hok : ∀ t, ∀ r ∈ ps t, IW.ReqOk r) (σ : List Nat) (hW : (IW.run s σ (IW.init ps)).R < W) (p : Nat) :
-    (p < (IW.run s σ (IW.init ps)).Y → IW.IsSome (s p) → IW.Delivered (IW.run s σ (IW.init ps)) p) ∧
-    (IW.Delivered (IW.run s σ (IW.init ps)) p → p < (IW.run s σ (IW.init ps)).Y) := by
-  have hi := IW.inv_init s ps hok
-  refine ⟨(IW.linv_run hf hnp σ hi (IW.linv_init s ps) hW).noLoss p, ?_⟩
-  rintro ⟨t, o, ho, hp⟩
-  exact (IW.oinv_run hf σ hi (IW.oinv_init s ps) hW).belowY t o ho p hp
+/-- **Wrapper, gap-free prefix**: in every reachable configuration, every position below the yielded counter
+that the wrapped iterator filled before it ended has been handed out, and everything handed out lies below the
+yielded counter and was filled: whenever no pull is in flight the delivered positions are exactly the filled prefix. -/
+theorem iter_quiescent_prefix (s : IW.Script) (hnp : IW.NoPanic s) (ps : Nat → List IW.Req)
+    (hok : ∀ t, ∀ r ∈ ps t, IW.ReqOk r) (hns : ∀ t, ∀ r ∈ ps t, r ≠ .skip) (σ : List Nat)
+    (hW : (IW.run s σ (IW.init ps)).R < W) (p : Nat) :
+    (p < (IW.run s σ (IW.init ps)).Y → IW.NoNoneBefore s (p + 1) → IW.Delivered (IW.run s σ (IW.init ps)) p) ∧
+    (IW.Delivered (IW.run s σ (IW.init ps)) p → p < (IW.run s σ (IW.init ps)).Y ∧ IW.NoNoneBefore s (p + 1)) := by
+  obtain ⟨_, ho, hl, _⟩ := IW.all_inv_run hnp σ (IW.inv_init s ps hok) (IW.oinv_init s ps) (IW.linv_init s ps)
+    (IW.finv_init s ps hns) (by intro t b n; simp [IW.init]) hW
+  refine ⟨hl.noLoss p, fun hd => ⟨?_, hl.delOk p hd⟩⟩
+  obtain ⟨t, o, ho', hp⟩ := hd
+  exact ho.belowY t o ho' p hp
 
 end Orx.Props.C04
